@@ -335,7 +335,7 @@ func e17Workloads(kind string) []wl {
 
 // ---- C19 ------------------------------------------------------------------------
 
-func e17OwnCase(kind string, chunk, chunks int) Case {
+func e17OwnCase(kind string, chunk, chunks int, allTriples bool) Case {
 	id := fmt.Sprintf("E17/own/%s/%d.%d", kind, chunk, chunks)
 	return Case{ID: id, Desc: map[string]interface{}{"kind": kind, "chunk": chunk}, Run: func(r *Res) {
 		ws := e17Workloads(kind)
@@ -397,7 +397,11 @@ func e17OwnCase(kind string, chunk, chunks int) Case {
 		}
 		// triples over a reduced workload list (every 3rd), all orders
 		var red []wl
-		for i := 0; i < len(ws); i += 3 {
+		step := 3
+		if allTriples {
+			step = 1
+		}
+		for i := 0; i < len(ws); i += step {
 			red = append(red, ws[i])
 		}
 		for i := range red {
@@ -844,15 +848,16 @@ func init() {
 	register("E17", func(tier string, seed uint64) []Case {
 		var cases []Case
 		const chunks = 16
-		d3 := tierPick(tier, 300, 12000)
-		d3p := tierPick(tier, 3200, 125000)
+		d3 := tierPick(tier, 300, 60000)
+		d3p := tierPick(tier, 3200, 400000)
 		for c := 0; c < chunks; c++ {
 			cases = append(cases, e17SemanticsCase(c, chunks, seed, d3))
 			cases = append(cases, e17EqualityCase(c, chunks, seed, d3p))
 		}
 		for _, k := range wlKinds {
-			for c := 0; c < 4; c++ {
-				cases = append(cases, e17OwnCase(k, c, 4))
+			nc := tierPick(tier, 4, 32)
+			for c := 0; c < nc; c++ {
+				cases = append(cases, e17OwnCase(k, c, nc, tier == "thorough"))
 			}
 		}
 		cases = append(cases, e17MiscOwnCase())
